@@ -21,4 +21,24 @@ After(st, sender, msg, funds) ==
          [] msg.kind = "accept"   -> [owner |-> st.pending, pending |-> NoOne, exp |-> "none"]
 (* time passing the deadline of a pending transfer *)
 Expire(st) == IF st.exp = "future" THEN [st EXCEPT !.exp = "past"] ELSE st
+(* ------------- farm- and position-level authorisation (second half of C15)
+   One farm (owner fo) and one position (owner po, one-day lock) in the farm manager. ob = [farm, pos]:
+   farm \in BOOLEAN (still exists), pos \in {"open", "closed", "unlocked", "gone"}. *)
+ObjRoles == {"o", "fo", "po", "pmc", "x"}
+ObjMsgs == {"farm_expand", "farm_close", "pos_create_for_po", "pos_expand", "pos_close", "pos_withdraw", "pos_emergency"}
+ObjOk(ob, sender, m) ==
+  CASE m = "farm_expand"       -> ob.farm /\ sender = "fo"
+    [] m = "farm_close"        -> ob.farm /\ sender \in {"fo", "o"}
+    [] m = "pos_create_for_po" -> sender \in {"pmc", "po"}
+    [] m = "pos_expand"        -> ob.pos = "open" /\ sender \in {"po", "pmc"}
+    [] m = "pos_close"         -> ob.pos = "open" /\ sender = "po"
+    [] m = "pos_withdraw"      -> ob.pos = "unlocked" /\ sender = "po"
+    [] m = "pos_emergency"     -> ob.pos \in {"open", "closed", "unlocked"} /\ sender = "po"
+ObjAfter(ob, sender, m) ==
+  IF ~ObjOk(ob, sender, m) THEN ob
+  ELSE CASE m = "farm_close" -> [ob EXCEPT !.farm = FALSE]
+         [] m = "pos_close" -> [ob EXCEPT !.pos = "closed"]
+         [] m \in {"pos_withdraw", "pos_emergency"} -> [ob EXCEPT !.pos = "gone"]
+         [] OTHER -> ob
+
 =============================================================================
